@@ -320,9 +320,11 @@ class WatchdogReloaderLoop(ReloaderLoop):
         from watchdog.events import FileModifiedEvent
         from watchdog.events import PatternMatchingEventHandler
         from watchdog.observers import Observer
+        from watchdog.utils.patterns import match_any_paths
 
         super().__init__(*args, **kwargs)
         trigger_reload = self.trigger_reload
+        exclude_patterns = self.exclude_patterns
 
         class EventHandler(PatternMatchingEventHandler):
             def on_any_event(self, event: FileModifiedEvent):  # type: ignore
@@ -334,6 +336,27 @@ class WatchdogReloaderLoop(ReloaderLoop):
                     EVENT_TYPE_MOVED,
                 }:
                     # skip events that don't involve changes to the file
+                    return
+
+                # The exclude patterns are fnmatch patterns for the whole
+                # path, like in the stat reloader. Watchdog's own ignore
+                # patterns match differently, and must not contain any of
+                # the watched patterns.
+                paths = {os.fsdecode(event.src_path)}
+
+                if getattr(event, "dest_path", ""):
+                    paths.add(os.fsdecode(event.dest_path))
+
+                remaining = set(paths)
+                _remove_by_pattern(remaining, exclude_patterns)
+
+                if remaining != paths and not match_any_paths(
+                    list(remaining),
+                    included_patterns=self.patterns,
+                    excluded_patterns=self.ignore_patterns,
+                    case_sensitive=self.case_sensitive,
+                ):
+                    # every watched path of the event is excluded
                     return
 
                 trigger_reload(event.src_path)
@@ -353,10 +376,7 @@ class WatchdogReloaderLoop(ReloaderLoop):
         extra_patterns = [p for p in self.extra_files if not os.path.isdir(p)]
         self.event_handler = EventHandler(
             patterns=["*.py", "*.pyc", "*.zip", *extra_patterns],
-            ignore_patterns=[
-                *[f"*/{d}/*" for d in _ignore_common_dirs],
-                *self.exclude_patterns,
-            ],
+            ignore_patterns=[f"*/{d}/*" for d in _ignore_common_dirs],
         )
         self.should_reload = False
 
